@@ -402,6 +402,27 @@ def oracle(case):
 					return {'what': 'the name %r that iteration yields is not found (or answers differently) under the spelling %r' % (k_, alt), 'finding': None}
 		if sorted((k_.lower(), h.getbytes(k_)) for k_ in keys) != sorted((k_.lower(), (v_ if isinstance(v_, bytes) else v_.encode('latin-1'))) for k_, v_ in dict.items(h)):
 			return {'what': 'items of the collection and lookups by the iterated names disagree', 'finding': None}
+		# a collection made with fromkeys(): the same name rules and the same spellings as every other way in
+		used = [op[1] for op in ops if len(op) > 1 and op[0] != 'R' and isinstance(op[1], bytes)]
+		good = [n_ for n_ in used if not is_bad_name(n_)]
+		if good:
+			fk = Headers.fromkeys(good, b'v')
+			for n_ in good:
+				for alt in (n_, n_.lower(), n_.upper(), n_.title(), n_.swapcase()):
+					if alt not in fk or fk.getbytes(alt) != b'v':
+						return {'what': 'Headers.fromkeys(): the name %r is not found under the spelling %r' % (n_, alt), 'finding': None}
+			fk2 = Headers()
+			w_ = bytes(fk)
+			fk2.parse(w_[:-4] if w_.endswith(b'\r\n\r\n') else w_[:-2])
+			if dict(dict.items(fk2)) != dict(dict.items(fk)):
+				return {'what': 'Headers.fromkeys(): parse(compose(h)) != h: %r / %r' % (dict(dict.items(fk2)), dict(dict.items(fk))), 'finding': None}
+		for n_ in used:
+			if is_bad_name(n_):
+				try:
+					Headers.fromkeys([n_], b'v')
+				except InvalidHeader:
+					continue
+				return {'what': 'Headers.fromkeys() accepts the invalid field name %r' % (n_,), 'finding': None}
 		before = dict(dict.items(h))
 		clone = Headers(h)
 		if dict(dict.items(clone)) != before:
